@@ -112,7 +112,42 @@ func checkC16(r *Run) {
 			return
 		}
 		stLoad := k.Call.Args[0]
-		if _, isCS := isLoadOfField(stLoad, csF); !isCS || !c.heldAt(upd, stLoad.(ssa.Instruction), upd.Params[0], muF, "w") {
+		stateOK := false
+		if _, isCS := isLoadOfField(stLoad, csF); isCS && c.heldAt(upd, stLoad.(ssa.Instruction), upd.Params[0], muF, "w") {
+			stateOK = true
+		} else if phi, isPhi := stLoad.(*ssa.Phi); isPhi {
+			// the resulting state kept in a local: the requested state on the way that stored it, the state read under the
+			// lock on the way that did not
+			stores := storesToField(upd, csF)
+			stateOK = len(stores) == 1
+			for _, lf := range phiLeaves(phi, map[ssa.Value]bool{}) {
+				if !stateOK || lf.Pred == nil || len(lf.Pred.Instrs) == 0 {
+					stateOK = false
+					break
+				}
+				last := lf.Pred.Instrs[len(lf.Pred.Instrs)-1]
+				st := ssa.Instruction(stores[0])
+				switch {
+				case lf.V == ssa.Value(upd.Params[1]):
+					if !Dominated(upd, last, func(x ssa.Instruction) bool { return x == st }, PathQ{}) {
+						stateOK = false
+					}
+				default:
+					ld, isLd := lf.V.(*ssa.UnOp)
+					if _, isCS := isLoadOfField(lf.V, csF); !isLd || !isCS || !c.heldAt(upd, ld, upd.Params[0], muF, "w") {
+						stateOK = false
+						break
+					}
+					// no store between this read and the join on this way
+					_, toStore := CanReach(upd, ld, func(x ssa.Instruction) bool { return x == st }, PathQ{})
+					_, storeToJoin := CanReach(upd, st, func(x ssa.Instruction) bool { return x == last }, PathQ{})
+					if toStore && (storeToJoin || st == last) {
+						stateOK = false
+					}
+				}
+			}
+		}
+		if !stateOK {
 			r1.Bad(key, in.Pos(), "the callback does not report the state read inside the critical section")
 			return
 		}
@@ -146,7 +181,7 @@ func checkC16(r *Run) {
 			}
 			_, xCS := isLoadOfField(bin.X, csF)
 			_, yCS := isLoadOfField(bin.Y, csF)
-			if !xCS || !yCS {
+			if !(xCS || bin.X == stLoad) || !(yCS || bin.Y == stLoad) {
 				continue
 			}
 			// one operand is the reported state: the very load passed to the callback, or another load of the field in the
@@ -188,6 +223,9 @@ func checkC16(r *Run) {
 				continue
 			}
 			// `other` is the load taken before the store
+			if _, isLoad := isLoadOfField(other, csF); !isLoad {
+				continue
+			}
 			before := true
 			for _, st := range storesToField(upd, csF) {
 				if _, found := CanReach(upd, st, func(x ssa.Instruction) bool { return x == other.(ssa.Instruction) }, PathQ{}); found {
